@@ -112,9 +112,14 @@ def singleParse (base host : Bytes) : Option VirtualHost :=
   | some vh => some vh
   | none => fallback host
 
-/-- does `domain` overlap one of the already accepted domains (`ends_with` either way) -/
+/-- does `domain` overlap one of the already accepted domains: both texts are lower-cased
+    (`to_ascii_lowercase`, as hosts are resolved without regard to ASCII case), then `ends_with`
+    either way — `lower.ends_with(&other) || other.ends_with(&lower)` -/
 def overlapsAny (v : List Bytes) (domain : Bytes) : Bool :=
-  v.any fun other => other.isSuffixOf domain || domain.isSuffixOf other
+  let lower := toAsciiLower domain
+  v.any fun other =>
+    let other := toAsciiLower other
+    other.isSuffixOf lower || lower.isSuffixOf other
 
 /-- the `for` loop of `MultiDomain::new` with the accepted vector `v` -/
 def multiNewLoop : List Bytes → List Bytes → Except DomainError (List Bytes)
